@@ -739,34 +739,53 @@ def prod(a, *args, **kwargs):
     return res * a.units ** (a.size // res.size)
 
 
+def _label_out(kwargs, units):
+    # an out= buffer that carries units must end up labelled like the result
+    out = kwargs.get("out")
+    if getattr(out, "units", None) is not None:
+        out.units = units
+
+
 @implements(np.var)
 def var(a, *args, **kwargs):
-    return np.var._implementation(np.asarray(a), *args, **kwargs) * a.units**2
+    ret = np.var._implementation(np.asarray(a), *args, **kwargs) * a.units**2
+    _label_out(kwargs, a.units**2)
+    return ret
 
 
 @implements(np.trace)
 def trace(a, *args, **kwargs):
-    return np.trace._implementation(np.asarray(a), *args, **kwargs) * a.units
+    ret = np.trace._implementation(np.asarray(a), *args, **kwargs) * a.units
+    _label_out(kwargs, a.units)
+    return ret
 
 
 @implements(np.percentile)
 def percentile(a, *args, **kwargs):
-    return np.percentile._implementation(np.asarray(a), *args, **kwargs) * a.units
+    ret = np.percentile._implementation(np.asarray(a), *args, **kwargs) * a.units
+    _label_out(kwargs, a.units)
+    return ret
 
 
 @implements(np.quantile)
 def quantile(a, *args, **kwargs):
-    return np.quantile._implementation(np.asarray(a), *args, **kwargs) * a.units
+    ret = np.quantile._implementation(np.asarray(a), *args, **kwargs) * a.units
+    _label_out(kwargs, a.units)
+    return ret
 
 
 @implements(np.nanpercentile)
 def nanpercentile(a, *args, **kwargs):
-    return np.nanpercentile._implementation(np.asarray(a), *args, **kwargs) * a.units
+    ret = np.nanpercentile._implementation(np.asarray(a), *args, **kwargs) * a.units
+    _label_out(kwargs, a.units)
+    return ret
 
 
 @implements(np.nanquantile)
 def nanquantile(a, *args, **kwargs):
-    return np.nanquantile._implementation(np.asarray(a), *args, **kwargs) * a.units
+    ret = np.nanquantile._implementation(np.asarray(a), *args, **kwargs) * a.units
+    _label_out(kwargs, a.units)
+    return ret
 
 
 @implements(np.linalg.det)
